@@ -24,9 +24,29 @@ func c01Check(d *vDriver, want []byte, what string) {
 	verifReach("c01." + what)
 }
 
+// c01History: when set, every harness first performs an earlier, unrelated call with its own symbolic
+// arguments - on the same client or on another client of the same process - before the call under test:
+// the request bytes must be a function of the current call only.
+var c01History bool
+
 func c01Driver() (*vDriver, *uhppote) {
 	d := &vDriver{err: errVerifNoReply}
-	return d, vClient(d)
+	u := vClient(d)
+	if c01History {
+		c01Earlier(u)
+		d.calls, d.req, d.method = 0, nil, ""
+	}
+	return d, u
+}
+
+func c01Earlier(u *uhppote) {
+	who := u
+	if nondetEnum("earlier.client", 2) == 1 {
+		who = vClient(&vDriver{err: errVerifNoReply}) // another client instance of the same process
+	}
+	// a request that fills bytes 8..27 with arbitrary values, and one that has a different shape
+	who.SetDoorPasscodes(nondetU32("earlier.id"), 1+nondetU8("earlier.door")%4, nondetU32("earlier.c1")%1000000, nondetU32("earlier.c2")%1000000, nondetU32("earlier.c3")%1000000, nondetU32("earlier.c4")%1000000)
+	who.SetListener(nondetU32("earlier.id2"), netip.AddrPortFrom(netip.AddrFrom4([4]byte{nondetU8("earlier.a"), nondetU8("earlier.b"), 3, 4}), nondetU16("earlier.port")), nondetU8("earlier.interval"))
 }
 
 func VerifC01_GetDevices() {
@@ -413,4 +433,222 @@ func VerifC01_RestoreDefaultParameters() {
 	id := nondetSerial("id")
 	u.RestoreDefaultParameters(id)
 	c01Check(d, c01Magic8(0xc8, id), "RestoreDefaultParameters")
+}
+
+// ---- the history half: the same harnesses after an earlier call (quick: six operations, thorough: all)
+
+func VerifC01_T_History_GetDevices() {
+	c01History = true
+	defer func() { c01History = false }()
+	VerifC01_GetDevices()
+}
+
+func VerifC01_T_History_GetDevice() {
+	c01History = true
+	defer func() { c01History = false }()
+	VerifC01_GetDevice()
+}
+
+func VerifC01_T_History_SetAddress() {
+	c01History = true
+	defer func() { c01History = false }()
+	VerifC01_SetAddress()
+}
+
+func VerifC01_T_History_GetListener() {
+	c01History = true
+	defer func() { c01History = false }()
+	VerifC01_GetListener()
+}
+
+func VerifC01_T_History_SetListener() {
+	c01History = true
+	defer func() { c01History = false }()
+	VerifC01_SetListener()
+}
+
+func VerifC01_T_History_GetTime() {
+	c01History = true
+	defer func() { c01History = false }()
+	VerifC01_GetTime()
+}
+
+func VerifC01_History_SetTime() {
+	c01History = true
+	defer func() { c01History = false }()
+	VerifC01_SetTime()
+}
+
+func VerifC01_T_History_GetDoorControlState() {
+	c01History = true
+	defer func() { c01History = false }()
+	VerifC01_GetDoorControlState()
+}
+
+func VerifC01_T_History_SetDoorControlState() {
+	c01History = true
+	defer func() { c01History = false }()
+	VerifC01_SetDoorControlState()
+}
+
+func VerifC01_T_History_GetStatus() {
+	c01History = true
+	defer func() { c01History = false }()
+	VerifC01_GetStatus()
+}
+
+func VerifC01_T_History_GetCards() {
+	c01History = true
+	defer func() { c01History = false }()
+	VerifC01_GetCards()
+}
+
+func VerifC01_T_History_GetCardByIndex() {
+	c01History = true
+	defer func() { c01History = false }()
+	VerifC01_GetCardByIndex()
+}
+
+func VerifC01_History_GetCardByID() {
+	c01History = true
+	defer func() { c01History = false }()
+	VerifC01_GetCardByID()
+}
+
+func VerifC01_History_PutCard() {
+	c01History = true
+	defer func() { c01History = false }()
+	VerifC01_PutCard()
+}
+
+func VerifC01_T_History_DeleteCard() {
+	c01History = true
+	defer func() { c01History = false }()
+	VerifC01_DeleteCard()
+}
+
+func VerifC01_T_History_DeleteCards() {
+	c01History = true
+	defer func() { c01History = false }()
+	VerifC01_DeleteCards()
+}
+
+func VerifC01_T_History_GetTimeProfile() {
+	c01History = true
+	defer func() { c01History = false }()
+	VerifC01_GetTimeProfile()
+}
+
+func VerifC01_History_SetTimeProfile() {
+	c01History = true
+	defer func() { c01History = false }()
+	VerifC01_SetTimeProfile()
+}
+
+func VerifC01_T_History_ClearTimeProfiles() {
+	c01History = true
+	defer func() { c01History = false }()
+	VerifC01_ClearTimeProfiles()
+}
+
+func VerifC01_T_History_ClearTaskList() {
+	c01History = true
+	defer func() { c01History = false }()
+	VerifC01_ClearTaskList()
+}
+
+func VerifC01_History_AddTask() {
+	c01History = true
+	defer func() { c01History = false }()
+	VerifC01_AddTask()
+}
+
+func VerifC01_T_History_RefreshTaskList() {
+	c01History = true
+	defer func() { c01History = false }()
+	VerifC01_RefreshTaskList()
+}
+
+func VerifC01_T_History_RecordSpecialEvents() {
+	c01History = true
+	defer func() { c01History = false }()
+	VerifC01_RecordSpecialEvents()
+}
+
+func VerifC01_T_History_GetEvent() {
+	c01History = true
+	defer func() { c01History = false }()
+	VerifC01_GetEvent()
+}
+
+func VerifC01_T_History_GetEventIndex() {
+	c01History = true
+	defer func() { c01History = false }()
+	VerifC01_GetEventIndex()
+}
+
+func VerifC01_T_History_SetEventIndex() {
+	c01History = true
+	defer func() { c01History = false }()
+	VerifC01_SetEventIndex()
+}
+
+func VerifC01_T_History_SetDoorPasscodes0() {
+	c01History = true
+	defer func() { c01History = false }()
+	VerifC01_SetDoorPasscodes0()
+}
+
+func VerifC01_T_History_SetDoorPasscodes1() {
+	c01History = true
+	defer func() { c01History = false }()
+	VerifC01_SetDoorPasscodes1()
+}
+
+func VerifC01_T_History_SetDoorPasscodes3() {
+	c01History = true
+	defer func() { c01History = false }()
+	VerifC01_SetDoorPasscodes3()
+}
+
+func VerifC01_T_History_SetDoorPasscodes4() {
+	c01History = true
+	defer func() { c01History = false }()
+	VerifC01_SetDoorPasscodes4()
+}
+
+func VerifC01_T_History_SetDoorPasscodes6() {
+	c01History = true
+	defer func() { c01History = false }()
+	VerifC01_SetDoorPasscodes6()
+}
+
+func VerifC01_History_OpenDoor() {
+	c01History = true
+	defer func() { c01History = false }()
+	VerifC01_OpenDoor()
+}
+
+func VerifC01_T_History_SetPCControl() {
+	c01History = true
+	defer func() { c01History = false }()
+	VerifC01_SetPCControl()
+}
+
+func VerifC01_T_History_SetInterlock() {
+	c01History = true
+	defer func() { c01History = false }()
+	VerifC01_SetInterlock()
+}
+
+func VerifC01_T_History_ActivateKeypads() {
+	c01History = true
+	defer func() { c01History = false }()
+	VerifC01_ActivateKeypads()
+}
+
+func VerifC01_T_History_RestoreDefaultParameters() {
+	c01History = true
+	defer func() { c01History = false }()
+	VerifC01_RestoreDefaultParameters()
 }
